@@ -641,7 +641,11 @@ impl IoLoop {
                         PollOpt::edge(),
                     )
                     .context(RegisterWithPollHandleSnafu)?;
-            } else if had_data_to_write {
+            } else if had_data_to_write && !self.inner.has_data_to_write() {
+                // (Not while data is left: that is only possible before our first complete
+                // write - the transport took part of the protocol header, or none of it - and
+                // then we are still registered for writable from start() and must stay so to
+                // be woken up when the socket can take the rest.)
                 trace!("reregistering socket for readable only");
                 have_written_to_socket = true;
                 self.poll
